@@ -218,6 +218,22 @@ def r18_2_3(run):
             run.ob('R18.3', u, br, 'the candidate loop is left early only once a listener has been chosen', okb, slot='early-exit',
                    message='the candidate loop stops at the first entry that is not the requested port: a matching listener further down the list is '
                            'never considered and Tor is re-configured')
+        # the candidates compared with the requested port are port *tokens*: somewhere between Tor's answer and the loop the
+        # option words are cut off (x.split()[0]); comparing whole lines never matches a listener that has options
+        seen_n, frontier, stripped = set(), set(x.id for x in ast.walk(lp.iter) if isinstance(x, ast.Name)), False
+        for _ in range(4):
+            nxt = set()
+            for nm in frontier - seen_n:
+                seen_n.add(nm)
+                for d in defs.get(nm, []):
+                    for e_ in [x for x in d[1:] if isinstance(x, ast.AST)]:
+                        if any(isinstance(x, ast.Subscript) and isinstance(x.value, ast.Call) and callee_attr(x.value) == 'split' and const(x.slice) == 0 for x in ast.walk(e_)):
+                            stripped = True
+                        nxt |= set(x.id for x in ast.walk(e_) if isinstance(x, ast.Name))
+            frontier = nxt
+        run.ob('R18.3', u, lp, 'the candidates are port tokens (option words cut off before the comparison)', stripped, slot='candidates-are-tokens',
+               message='the candidate loop compares the requested port with Tor\'s SOCKSPort lines as reported: "9050" never equals "9050 IsolateDestAddr", so a '
+                       'listener that has options is treated as absent and a duplicate port is configured')
         tv = lp.target.id
         tests = [t for t in ast.walk(lp) if isinstance(t, ast.Compare) and dotted(t.left) == tv and dotted(t.comparators[0]) == 'socks_config']
         ok = bool(tests) and all(isinstance(t.ops[0], (ast.NotEq, ast.Eq)) for t in tests)
@@ -384,6 +400,7 @@ RULES = [
 from ..selftest import M  # noqa: E402
 F, FC = 'txtorcon/endpoints.py', 'txtorcon/torconfig.py'
 MUTANTS = [
+    M('candidates-not-stripped', F, "    socks_ports = [port.split()[0] for port in socks_ports]\n", "", ['R18.3']),
     M('mismatch-breaks', F, "        if socks_config and p != socks_config:\n            continue", "        if socks_config and p != socks_config:\n            break", ['R18.3']),
     M('default-endpoint-first-line', 'txtorcon/controller.py', "        if self._socks_endpoint is None:\n            self._socks_endpoint = yield _create_socks_endpoint(self._reactor, self._protocol)", "        if self._socks_endpoint is None and self._config is not None:\n            self._socks_endpoint = self._config.socks_endpoint(self._reactor)\n        if self._socks_endpoint is None:\n            self._socks_endpoint = yield _create_socks_endpoint(self._reactor, self._protocol)", ['R18.7']),
     M('unix-line-options-kept', FC, "        elif ' ' in path:\n            path = path.split()[0]\n", "", ['R18.5']),
